@@ -496,6 +496,11 @@ func runCheck(id, tier, only string, keep bool) int {
 	for _, r := range results {
 		for _, rep := range r.reports {
 			nondet = append(nondet, rep.Nondet...)
+			if len(rep.Nondet) > 0 {
+				// a worker whose executions are not a function of their choice lists: its violations are
+				// not believed (those of the other workers still are)
+				continue
+			}
 			for _, v := range rep.Violations {
 				if f, ok := known[v.Key]; ok {
 					if !printedKnown[v.Key] {
@@ -521,9 +526,12 @@ func runCheck(id, tier, only string, keep bool) int {
 	}
 	if len(nondet) > 0 {
 		for _, n := range nondet {
-			fmt.Fprintf(os.Stderr, "NONDETERMINISM %s\n", n)
+			fmt.Fprintf(os.Stderr, "NONDETERMINISM %s\n", oneLine(n, 600))
 		}
-		return fatal(2, "harness nondeterminism detected; nothing reported")
+		if len(newVios) == 0 {
+			return fatal(2, "harness nondeterminism detected; nothing reported")
+		}
+		fmt.Fprintf(os.Stderr, "vcheck: %d worker(s) were not deterministic under replay; only violations from the deterministic workers are reported\n", len(nondet))
 	}
 	if len(infraErrs) > 0 {
 		for _, e := range infraErrs {
